@@ -98,6 +98,7 @@ def check(ctx):
     check_same_cache(ctx)
     check_roles(ctx)
     check_identity_assert(ctx)
+    check_group_of_parent(ctx)
     check_errors(ctx)
     check_single_child(ctx)
     check_empty_list_rejections(ctx)
@@ -848,3 +849,62 @@ def _is_emptiness_of_cache_list(fi, test, sl):
                 if isinstance(x, ast.Name) and 'marker' in x.id:
                     return True
     return False
+
+
+def check_group_of_parent(ctx, rule='R-PROV/group-of-parent'):
+    """the marker positions used for a parent are read from the cache
+    group named after that parent: the group object whose 'reference' /
+    'query' datasets are read has, on every path, one and the same key
+    expression, and that expression derives from `parent_node` alone.  A
+    second key (another parameter, a constant) on some path maps the
+    parent's cells with another node's genes while the output still
+    reports the parent's own list."""
+    db = ctx.db
+    fi = db.fn('type_assignment.matching:assemble_query_data')
+    ctx.touch(fi)
+    cfg = cfg_of(fi)
+    rd = rd_of(fi)
+    ex = Expander(fi)
+    n = 0
+    for node in cfg.nodes:
+        if node.id not in rd.live or node.ast is None:
+            continue
+        for sub in (node.ast,):
+            for s in ast.walk(sub):
+                if not (isinstance(s, ast.Subscript) and isinstance(
+                        s.ctx, ast.Load) and isinstance(
+                            s.slice, ast.Constant) and s.slice.value in (
+                                'reference', 'query')
+                        and isinstance(s.value, ast.Name)):
+                    continue
+                if node.kind not in ('stmt', 'return'):
+                    continue
+                t = ex.expand(s.value, node.id)
+                keys = set()
+                shape_ok = True
+                for alt in term_alts(t):
+                    if isinstance(alt, tuple) and alt and alt[0] == 'sub':
+                        keys.add(alt[2])
+                    else:
+                        shape_ok = False
+                params = set()
+                for k in keys:
+                    params |= set(T.params_in(k))
+                n += 1
+                ok = shape_ok and len(keys) == 1 and params == {
+                    'parent_node'}
+                ctx.ob(rule, f'{fi.qual}:{s.slice.value}#{n - 1}',
+                       fi.loc(s), ok,
+                       f"'{s.slice.value}' positions are read from the "
+                       'group keyed by parent_node' if ok else
+                       f"`{unparse(s)}` reads the '{s.slice.value}' "
+                       'positions from a group addressed by '
+                       + ' or '.join(sorted(fmt_term(k)[:50]
+                                            for k in keys) or ['?'])
+                       + f' (parameters {sorted(params)}): on some path '
+                       'the genes used for this parent are those of '
+                       'another group, not the ones reported for it')
+    if n < 2:
+        raise AnalysisError('assemble_query_data: the reads of the '
+                            "'reference' and 'query' positions of the "
+                            'parent group were not found')
